@@ -315,14 +315,14 @@ func evalComparison(ctx context.Context, scope *ReferenceScope, expr parser.Comp
 
 		t = value.Compare(sv, rhs, expr.Operator.Literal, scope.Tx.Flags.DatetimeFormat, scope.Tx.Flags.GetTimeLocation())
 	} else {
-		rhs, err := EvalRowValue(ctx, scope, expr.RHS.(parser.RowValue))
+		rhs, err := EvalRowValue(ctx, scope, expr.RHS)
 		if err != nil {
 			return nil, err
 		}
 
 		t, err = value.CompareRowValues(rv, rhs, expr.Operator.Literal, scope.Tx.Flags.DatetimeFormat, scope.Tx.Flags.GetTimeLocation())
 		if err != nil {
-			return nil, NewRowValueLengthInComparisonError(expr.RHS.(parser.RowValue), len(rv))
+			return nil, NewRowValueLengthInComparisonError(expr.RHS, len(rv))
 		}
 	}
 
@@ -377,26 +377,26 @@ func evalBetween(ctx context.Context, scope *ReferenceScope, expr parser.Between
 			t = ternary.And(lowResult, highResult)
 		}
 	} else {
-		low, err := EvalRowValue(ctx, scope, expr.Low.(parser.RowValue))
+		low, err := EvalRowValue(ctx, scope, expr.Low)
 		if err != nil {
 			return nil, err
 		}
 		lowResult, err := value.CompareRowValues(rv, low, ">=", scope.Tx.Flags.DatetimeFormat, scope.Tx.Flags.GetTimeLocation())
 		if err != nil {
-			return nil, NewRowValueLengthInComparisonError(expr.Low.(parser.RowValue), len(rv))
+			return nil, NewRowValueLengthInComparisonError(expr.Low, len(rv))
 		}
 
 		if lowResult == ternary.FALSE {
 			t = ternary.FALSE
 		} else {
-			high, err := EvalRowValue(ctx, scope, expr.High.(parser.RowValue))
+			high, err := EvalRowValue(ctx, scope, expr.High)
 			if err != nil {
 				return nil, err
 			}
 
 			highResult, err := value.CompareRowValues(rv, high, "<=", scope.Tx.Flags.DatetimeFormat, scope.Tx.Flags.GetTimeLocation())
 			if err != nil {
-				return nil, NewRowValueLengthInComparisonError(expr.High.(parser.RowValue), len(rv))
+				return nil, NewRowValueLengthInComparisonError(expr.High, len(rv))
 			}
 
 			t = ternary.And(lowResult, highResult)
